@@ -37,12 +37,18 @@ CORPUS = os.path.join(common.VERIF, "corpus", "C17")
 
 def impl_dump(d, setup):
     from io_drawer.dump import parse_dump_data
-    return parse_dump_data(memoryview(bytes(d)), setup.header, setup.strings)
+    try:
+        return parse_dump_data(memoryview(bytes(d)), setup.header, setup.strings)
+    except Exception as e:  # noqa: BLE001  (an escaping exception is a result of its own: never the model's lines)
+        return ["<parse_dump_data raised %s: %s>" % (type(e).__name__, str(e)[:120])]
 
 
 def impl_dump_file(path, setup):
     from io_drawer.dump import parse_dump_file
-    return parse_dump_file(path, setup.header, setup.strings)
+    try:
+        return parse_dump_file(path, setup.header, setup.strings)
+    except Exception as e:  # noqa: BLE001
+        return ["<parse_dump_file raised %s: %s>" % (type(e).__name__, str(e)[:120])]
 
 
 def norm(lines):
